@@ -721,9 +721,15 @@ func TestVerifC20(t *testing.T) {
 	defer w.Flush()
 	sc := bufio.NewScanner(in)
 	sc.Buffer(make([]byte, 1<<20), 1<<26)
+	hung := false
 	for sc.Scan() {
 		f := strings.Fields(sc.Text())
 		if len(f) == 0 {
+			continue
+		}
+		if hung {
+			// a goroutine of the code under test is blocked for good; do not pile more on top of it
+			fmt.Fprintln(w, "skipped-after-hang")
 			continue
 		}
 		done := make(chan string, 1)
@@ -742,12 +748,17 @@ func TestVerifC20(t *testing.T) {
 				done <- "badline"
 			}
 		}()
+		limit := 90 * time.Second
+		if f[0] == "seq" {
+			limit = 5 * time.Second
+		}
 		select {
 		case line := <-done:
 			fmt.Fprintln(w, line)
-		case <-time.After(300 * time.Second):
+		case <-time.After(limit):
 			// an emitter or the tick blocked: the non-blocking clause is violated (or the harness is stuck)
 			fmt.Fprintln(w, "hang")
+			hung = true
 		}
 		w.Flush()
 	}
